@@ -45,55 +45,80 @@ type h1Relay struct {
 	ManGiven []string
 	Order    []byte // 's' / 'm' per hand-over, in order
 	stop     chan struct{}
+	// consumer model: open is closed while watchBackend is ready to receive, shut is closed while it is busy
+	// (exactly one of the two is closed at any time); busy only ever changes at the driver's quiescent states
+	open, shut chan struct{}
+	busy       bool
 }
 
 func (w *h1Relay) Register([]string) error { return nil }
 func (w *h1Relay) DeregisterAll() error    { return nil }
 
 func (w *h1Relay) WatchServices() chan string {
-	in := w.Backend.WatchServices()
-	go func() {
-		for {
-			select {
-			case v := <-in:
-				w.mu.Lock()
-				w.pendSvc = &v
-				w.SvcSeen = append(w.SvcSeen, v)
-				w.mu.Unlock()
-				select {
-				case <-w.svcTaken:
-				case <-w.stop:
-					return
-				}
-			case <-w.stop:
-				return
-			}
-		}
-	}()
+	go w.pump(w.Backend.WatchServices(), &w.pendSvc, &w.SvcSeen, w.svcTaken)
 	return w.svcOut
 }
 
 func (w *h1Relay) WatchManual() chan string {
-	in := w.Backend.WatchManual()
-	go func() {
-		for {
+	go w.pump(w.Backend.WatchManual(), &w.pendMan, &w.ManSeen, w.manTaken)
+	return w.manOut
+}
+
+// pump stands for watchBackend's receive on one watcher channel: it takes a value from the watcher only while the
+// consumer is ready (gate open), holds it until the driver hands it to watchBackend, and takes nothing while the
+// consumer is busy: the watcher then meets exactly what it meets when the real watchBackend is between two receives
+// (a blocked send on fabio's unbuffered channel; whatever a changed fabio does with a consumer that does not receive).
+func (w *h1Relay) pump(in chan string, pend **string, seen *[]string, taken chan struct{}) {
+	for {
+		open, _ := w.gates()
+		select {
+		case <-open:
+		case <-w.stop:
+			return
+		}
+		_, shut := w.gates()
+		select {
+		case v, ok := <-in:
+			if !ok {
+				return
+			}
+			w.mu.Lock()
+			*pend = &v
+			*seen = append(*seen, v)
+			w.mu.Unlock()
 			select {
-			case v := <-in:
-				w.mu.Lock()
-				w.pendMan = &v
-				w.ManSeen = append(w.ManSeen, v)
-				w.mu.Unlock()
-				select {
-				case <-w.manTaken:
-				case <-w.stop:
-					return
-				}
+			case <-taken:
 			case <-w.stop:
 				return
 			}
+		case <-shut: // the consumer became busy before the watcher had anything to send
+		case <-w.stop:
+			return
 		}
-	}()
-	return w.manOut
+	}
+}
+
+func (w *h1Relay) gates() (open, shut chan struct{}) {
+	w.mu.Lock()
+	defer w.mu.Unlock()
+	return w.open, w.shut
+}
+
+// setBusy is called by the driver at quiescent states only.
+func (w *h1Relay) setBusy(b bool) {
+	w.mu.Lock()
+	defer w.mu.Unlock()
+	if b == w.busy {
+		return
+	}
+	w.busy = b
+	if b {
+		w.open = make(chan struct{})
+		close(w.shut)
+	} else {
+		w.shut = make(chan struct{})
+		close(w.open)
+	}
 }
 
 type h1Install struct {
@@ -116,6 +141,16 @@ type h1Env struct {
 	cur   uintptr
 	Inst  []h1Install
 	wb    *simhook.Task
+	// Consumer-busy model (optional, set before start): after a hand-over watchBackend stays busy - it receives from
+	// neither channel, as the real one does while it registers aliases with Consul and builds the table - until
+	// Progress() has grown by Hold() or nothing else is enabled. Hold == nil: never busy (the relays always receive).
+	Hold      func() int
+	Progress  func() int
+	holdUntil int
+	// HoldTime: a busy period that ends because nothing else can happen first lets that much simulated time pass
+	// (the consumer is busy in real time too: timers of the watchers run meanwhile)
+	HoldTime  time.Duration
+	holdTimed bool
 }
 
 func tablePtr(t route.Table) uintptr { return reflect.ValueOf(t).Pointer() }
@@ -138,7 +173,9 @@ func (e *h1Env) start() {
 		e.r.Abort()
 	}
 	e.relay = &h1Relay{Backend: consul.NewBackendWithClient(cl, e.ccfg, "dc1"), svcOut: make(chan string), manOut: make(chan string),
-		svcTaken: make(chan struct{}), manTaken: make(chan struct{}), stop: make(chan struct{})}
+		svcTaken: make(chan struct{}), manTaken: make(chan struct{}), stop: make(chan struct{}),
+		open: make(chan struct{}), shut: make(chan struct{})}
+	close(e.relay.open)
 	registry.Default = e.relay
 	e.cfg = &config.Config{}
 	e.cfg.Registry.Backend = "consul"
@@ -163,6 +200,13 @@ func (e *h1Env) relayEvents() []simcore.Event {
 		return nil // watchBackend is in the middle of processing the previous hand-over (statement-level runs)
 	}
 	var ev []simcore.Event
+	if w.busy {
+		// watchBackend is busy with the previous hand-over: it receives nothing
+		if e.Progress() >= e.holdUntil {
+			ev = append(ev, simcore.Event{Key: "relay:ready", Weight: 5, Fire: func() { e.releaseHold(false) }})
+		}
+		return ev
+	}
 	if w.pendSvc != nil {
 		ev = append(ev, simcore.Event{Key: "relay:svc", Weight: 3, Fire: func() {
 			w.mu.Lock()
@@ -173,6 +217,7 @@ func (e *h1Env) relayEvents() []simcore.Event {
 			w.mu.Unlock()
 			e.r.Tracef("watchBackend <- svc #%d (%d bytes)", len(w.SvcGiven), len(v))
 			w.svcOut <- v
+			e.startHold()
 			w.svcTaken <- struct{}{}
 		}})
 	}
@@ -186,10 +231,45 @@ func (e *h1Env) relayEvents() []simcore.Event {
 			w.mu.Unlock()
 			e.r.Tracef("watchBackend <- man #%d (%d bytes)", len(w.ManGiven), len(v))
 			w.manOut <- v
+			e.startHold()
 			w.manTaken <- struct{}{}
 		}})
 	}
 	return ev
+}
+
+// startHold: watchBackend has just received a config; from now on it is busy for Hold() semantic events.
+func (e *h1Env) startHold() {
+	if e.Hold == nil {
+		return
+	}
+	h := e.Hold()
+	if h <= 0 {
+		return
+	}
+	synctest.Wait() // watchBackend has run to its next receive (or parked at a statement)
+	e.holdUntil = e.Progress() + h
+	e.holdTimed = false
+	e.relay.setBusy(true)
+	e.r.Probe("consumer_busy")
+	e.r.Tracef("watchBackend busy for %d events", h)
+}
+
+// releaseHold ends a busy period (its events have passed, or nothing else can happen); it reports whether there was
+// one. With timeOK a busy period that is cut short because nothing else can happen first lasts HoldTime on the clock.
+func (e *h1Env) releaseHold(timeOK bool) bool {
+	if e.relay == nil || !e.relay.busy {
+		return false
+	}
+	if timeOK && e.HoldTime > 0 && !e.holdTimed && e.Progress() < e.holdUntil {
+		e.holdTimed = true
+		e.d.Advance(e.HoldTime)
+		return true
+	}
+	e.relay.setBusy(false)
+	e.r.Tracef("watchBackend ready")
+	synctest.Wait()
+	return true
 }
 
 // observe runs at every quiescent state: records table installs.
@@ -216,6 +296,9 @@ func (e *h1Env) settle(maxSteps int, quiet time.Duration) {
 		synctest.Wait()
 		if e.d.Step() {
 			continue
+		}
+		if e.releaseHold(time.Since(start) < quiet) {
+			continue // nothing else could happen: the busy consumer comes back
 		}
 		if time.Since(start) >= quiet {
 			return
